@@ -216,6 +216,8 @@ def run(P, R, tier):
     from .C03 import check_mstep_wrapper, check_switch_pairing
     check_switch_pairing(P, R, MAP)
     check_mstep_wrapper(P, R)  # MAP trainer -> MAP M-step, with the machine's alpha / relevance factor
+    from ..engines import traps as _traps
+    _traps.check(P, R, ['gmm'], scope='gmm:(map_gmm_m_step|m_step|GMMMachine\\.(__init__|initialize_gaussians|_\\w+)|_\\w+)$')
 
 
 EXPLANATION += ' Also: numerator / denominator placement and literal coefficients of the three blends, the sign of the squared adapted mean in the no-evidence fallback of the variances, the no-evidence test compares the responsibility mass with the configured threshold, the relevance-factor flag is passed with the right polarity; all of these are followed into a helper when the blend is factored out.'
